@@ -59,11 +59,12 @@ impl Heap {
     pub open spec fn upper_only(&self, id: int) -> bool { self.ris(id).len() == 1 && self.ris(id)[0].in_upper_layer }
     // C10: every real inode on record is honest about its layer; a live node has at least one; a parent is live, nearer the root, visible
     pub open spec fn inv(&self) -> bool { ninv(self.nodes) }
-    // REC (C11): a node (visible or a whiteout) whose path the lower layers still show has that on record - a lower real inode, or the
-    // `lower_exists` flag: that is what do_rm consults to decide whether a whiteout must be left so that the deletion survives a restart,
+    // REC (C11): a node (visible or a whiteout) whose path the lower layers still show has that on record - its `lower_exists` flag, or (on a
+    // tree without that field) a lower real inode: that is what do_rm consults to decide whether a whiteout must be left so that the deletion survives a restart,
     // and do_mkdir to decide whether the new directory must be opaque
     pub open spec fn rec_id(&self, id: int) -> bool { nrec(self.nodes, id) }
-    // the record is kept: every node afterwards - new, or in order before - is in order
+    pub open spec fn rec_inv(&self) -> bool { nrec_inv(self.nodes) }
+    // the record is an invariant: in order before ==> in order afterwards
     pub open spec fn rec_pres(&self, o: Heap) -> bool { nrec_pres(self.nodes, o.nodes) }
     // nothing but node `id` changed, and that node only in its real inodes / whiteout flag
     pub open spec fn only_node(&self, o: Heap, id: int) -> bool {
@@ -90,11 +91,10 @@ pub open spec fn ninv(n: Map<int, NodeSt>) -> bool {
     &&& HAS_LF() || forall|id: int| #[trigger] n.contains_key(id) ==> !n[id].lf
 }
 pub open spec fn nrec(n: Map<int, NodeSt>, id: int) -> bool {
-    n.contains_key(id) && lower_has(n[id].path) ==> n[id].lf || exists|i: int| 0 <= i < n[id].ris.len() && !(#[trigger] n[id].ris[i]).in_upper_layer
+    n.contains_key(id) && lower_has(n[id].path) ==> (if HAS_LF() { n[id].lf } else { exists|i: int| 0 <= i < n[id].ris.len() && !(#[trigger] n[id].ris[i]).in_upper_layer })
 }
-pub open spec fn nrec_pres(n: Map<int, NodeSt>, o: Map<int, NodeSt>) -> bool {
-    forall|k: int| #[trigger] n.contains_key(k) && (o.contains_key(k) ==> nrec(o, k)) ==> nrec(n, k)
-}
+pub open spec fn nrec_inv(n: Map<int, NodeSt>) -> bool { forall|k: int| #[trigger] n.contains_key(k) ==> nrec(n, k) }
+pub open spec fn nrec_pres(n: Map<int, NodeSt>, o: Map<int, NodeSt>) -> bool { nrec_inv(o) ==> nrec_inv(n) }
 // "a lower layer still shows an entry at this overlay path" (the union of the lower layers alone); lower layers never change (C10), so
 // this is a fact about the path
 pub uninterp spec fn lower_has(path: Seq<char>) -> bool;
@@ -444,8 +444,11 @@ def unit(root='/repo'):
                 assert(vxh.rec_id(me));
             }
             assert(h1.rec_pres(h0));
-            assert forall|k: int| #[trigger] vxh.nodes.contains_key(k) && k != me && (h0.nodes.contains_key(k) ==> h0.rec_id(k)) implies vxh.rec_id(k) by {
-                assert(vxh.nodes[k] == h1.nodes[k]); assert(h1.nodes.contains_key(k)); assert(h1.rec_id(k));
+            if h0.rec_inv() {
+                assert(h1.rec_inv());
+                assert forall|k: int| #[trigger] vxh.nodes.contains_key(k) && k != me implies vxh.rec_id(k) by {
+                    assert(vxh.nodes[k] == h1.nodes[k]); assert(h1.nodes.contains_key(k)); assert(h1.rec_id(k));
+                }
             }
         }'''
     SNAP = 'let ghost h1 = *vxh; proof { assert(parent_node.nid() != node.nid()); assert(h1.nodes[node.nid()] == old(vxh).nodes[node.nid()]); assert(h1.up_frame(*old(vxh), parent_node.nid()) || h1 == *old(vxh)); assert(h1.up_frame(*old(vxh), node.nid())); }'
@@ -488,12 +491,13 @@ def unit(root='/repo'):
                 ensures=UP_COMMON_ENS + [NO_UPPER % 'do_mkdir',
                     '({ let n = self.s_node(parent_node.inode, name@); r is Ok && self.has_node(parent_node.inode, name@) && old(vxh).nodes.contains_key(n.nid()) && old(vxh).in_upper(n.nid()) ==> %s == (UpMut::Unwhite { dir: final(vxh).ris(parent_node.nid())[0].inode, name: str_bytes(name@) }) }) // [C11.do_mkdir.unwhite] a whiteout of that name in the upper directory is removed first' % NEWLOG]
                     + ([
-                    'r is Ok && lower_has(path_join_spec(parent_node.path@, name@)) ==> %s is Opaque // [C11.do_mkdir.opaque_when_lower] a directory made where a lower layer still shows an entry is marked opaque: the old contents do not come back' % NEWLOG,
+                    'r is Ok && old(vxh).rec_inv() && lower_has(path_join_spec(parent_node.path@, name@)) ==> %s is Opaque // [C11.do_mkdir.opaque_when_lower] a directory made where a lower layer still shows an entry is marked opaque: the old contents do not come back' % NEWLOG,
                     REC_CLAUSE % 'do_mkdir'] if CHECK_LOWER_RECORD else []),
-                splices=[('let mut new_node = None;', 'before', 'let ghost h2 = *vxh; let ghost mut h3 = *vxh; let ghost iw = h2.log.len() as int; let ghost mut iop: int = 0; proof { assert(pnode == *parent_node); }'),
+                splices=[('let mut new_node = None;', 'before', 'let ghost h2 = *vxh; let ghost mut h3 = *vxh; let ghost iw = h2.log.len() as int; let ghost mut iop: int = -1; proof { assert(pnode == *parent_node); }'),
                          ('let ino = self.alloc_inode(&path, Tracked(vxh))?;', 'before', 'proof { h3 = *vxh; if delete_whiteout && vxh.log.len() == iw + 1 { assert(vxh.log[iw] == (UpMut::Unwhite { dir: h2.ris(pnode.nid())[0].inode, name: str_bytes(name@) })); } }'),
-                         ('let ovi = OverlayInode::new_from_real_inode(name, ino, path.clone(), child_dir, Tracked(vxh));', 'before', 'proof { iop = vxh.log.len() - 1; }'),
-                         ('Ok(())\n    }', 'before', 'proof { if delete_whiteout && iw < vxh.log.len() && h3.log.len() == iw + 1 { assert(vxh.log[iw] == h3.log[iw]); } if 0 <= iop < vxh.log.len() { assert(vxh.log[iop] == vxh.log[iop]); } assert(vxh.nodes[pnode.nid()] == h2.nodes[pnode.nid()]); }')],
+                         ('let ovi = OverlayInode::new_from_real_inode(name, ino, path.clone(), child_dir, Tracked(vxh));', 'before', 'proof { if set_opaque && vxh.log.len() == lb + 1 { iop = lb; assert(vxh.log[iop] is Opaque); } }'),
+                         ('let child_dir = parent_real_inode.mkdir(ctx, name, mode, umask)?;', 'after', 'let ghost lb = vxh.log.len() as int;'),
+                         ('Ok(())\n    }', 'before', 'proof { if delete_whiteout && iw < vxh.log.len() && h3.log.len() == iw + 1 { assert(vxh.log[iw] == h3.log[iw]); } if 0 <= iop < vxh.log.len() && iop >= iw && set_opaque { assert(vxh.log[iop] is Opaque); } assert(vxh.nodes[pnode.nid()] == h2.nodes[pnode.nid()]); }')],
                 ), path_callees=['new_from_real_inode'])
     mk.locate = R.presub_locate(OF, 'do_mkdir', [('format!("{}/{}", pnode.path, name)', 'path_join(pnode.path.as_str(), name)', 'the child path as a model call (R7 would erase it)')])
     mk.body_hooks = [R.r29_inline_upper_closure(0)]
@@ -502,7 +506,7 @@ def unit(root='/repo'):
                 ensures=UP_COMMON_ENS + [NO_UPPER % 'do_rm']
                     + ([
                     '''({ let nd = self.s_node(parent, lossy_str(name@)); let pn = self.s_node(parent, Seq::<char>::empty());
-                        r is Ok && nd.nid() != pn.nid() && lower_has(final(vxh).nodes[nd.nid()].path) && !final(vxh).ris(pn.nid())[0].opaque && (old(vxh).nodes.contains_key(nd.nid()) ==> old(vxh).rec_id(nd.nid()))
+                        r is Ok && nd.nid() != pn.nid() && lower_has(final(vxh).nodes[nd.nid()].path) && !final(vxh).ris(pn.nid())[0].opaque && old(vxh).rec_inv()
                             ==> %s == (UpMut::Whiteout { dir: final(vxh).ris(pn.nid())[0].inode, name: name@ }) }) // [C11.do_rm.whiteout_when_lower] removing a name a lower layer still shows leaves a whiteout in the upper directory (unless that directory is opaque): the deletion survives a restart''' % NEWLOG,
                     REC_CLAUSE % 'do_rm'] if CHECK_LOWER_RECORD else []),
                 splices=[('let node = self.lookup_node(ctx, parent, sname.as_str(), Tracked(vxh))?;', 'after', 'let ghost nd = node.nid(); let ghost pn = pnode.nid(); proof { reveal_strlit(""); assert(""@ =~= Seq::<char>::empty()); }'),
